@@ -15,7 +15,7 @@ from mc.core import Explorer, violation
 
 ASSUMPTIONS = ["n=6 samples, d=3 features; scales up to 1000; learning rate 0.1, 3 epochs"]
 FAMILIES = ["plain", "x10", "x1000", "zero_column", "constant_column", "duplicated_column", "duplicated_rows", "all_rows_equal", "n_equals_K", "tiny_scale",
-            "copies_x4", "all_equal_20"]
+            "copies_x4", "all_equal_20", "single_sample"]
 
 
 def make_data(family, seed):
@@ -42,6 +42,8 @@ def make_data(family, seed):
         X = np.tile(X, (4, 1))
     elif family == "all_equal_20":
         X = np.tile(X[:1], (20, 1))
+    elif family == "single_sample":       # one sample (legal with one cluster; for Kauri with any max_clusters)
+        X = X[:1]
     return X
 
 
@@ -197,7 +199,7 @@ def finite_case(case):
                     warnings.simplefilter("ignore")
                     Xq = X[:m_]
                     sq = model.score(Xq)
-                    okq = np.isfinite(sq) and (name == "Kauri" or np.all(np.isfinite(model.predict_proba(Xq)))) and len(model.predict(Xq)) == m_
+                    okq = np.isfinite(sq) and (name == "Kauri" or np.all(np.isfinite(model.predict_proba(Xq)))) and len(model.predict(Xq)) == len(Xq)
                 if not okq:
                     v.append(violation("non_finite_score", {"rows": m_, "score": sq}, **where))
             except Exception as e:  # noqa
@@ -225,9 +227,11 @@ def explorers(tier, seed):
                     for K in (1, 3):
                         for bs in ((None, 1) if name in M.BATCHED else (None,)):
                             for mode in (("fit", "path") if name in M.SPARSE else ("fit",)):
+                                if family == "single_sample" and (K != 1 or mode == "path") and name != "Kauri":
+                                    continue
                                 if not thorough:
                                     # quick: every (estimator, gemini, family) once with K rotating; solver/batch/K cross product on three families
-                                    full = family in ("x1000", "all_rows_equal", "duplicated_rows", "zero_column", "copies_x4", "all_equal_20")
+                                    full = family in ("x1000", "all_rows_equal", "duplicated_rows", "zero_column", "copies_x4", "all_equal_20", "single_sample")
                                     if not full and (solver == "sgd" or bs == 1 or K != (1 if FAMILIES.index(family) % 2 else 3)):
                                         continue
                                 cases.append((name, gemini, solver, family, K, bs, mode, seed))
